@@ -312,7 +312,7 @@ class RustFE:
                 self.dec[tyname(fn.ret[7:-1])] = fn
         self.ctl = PathCtl()
         self.cks_registered = True
-        self.cks_hint = (4, False)
+        self.cks_hint = {'*': (4, False)}
         self.steps = 0
 
     # ------------------------------------------------------------------ execution
@@ -899,7 +899,7 @@ class RustFE:
         if meth == 'calc' and 'ChecksumService' in o:
             svc = self.deref(a[0])
             buf = self.buf_of(a[1])
-            w, signed = self.cks_hint
+            w, signed = self.cks_hint.get(svc.alg, self.cks_hint['*'])
             var = ('I' if signed else 'U') + str(8 * w)
             return REnum('Checksum', var, [RInt(refmod.cks_uf(svc.alg, w, list(buf.b)), ('i' if signed else 'u') + str(8 * w))])
         raise Unsupported('call ' + path[:100])
@@ -1103,11 +1103,7 @@ class RustFE:
         self.ctl = ctl
         self.cks_registered = cks_registered
         self.steps = 0
-        self.cks_hint = (4, False)
-        for f in packet.fields:
-            sem = self.spec.resolve(f)
-            if sem[0] == 'checksum':
-                self.cks_hint = (WIDTH[sem[1]], sem[1].startswith('i'))
+        self.cks_hint = refmod.cks_hints(self.spec, packet)
 
     def struct_fields(self, packet):
         n = find(list(self.structs), packet.name)
